@@ -3,6 +3,32 @@ from .. import cfg, flow
 from ..facts import callee_path
 
 
+def mode_owner(ctx, rep, rule):
+    """The blocking mode of a socket is chosen once, by get_socket (read timeout or non-blocking).  A constant
+    `set_nonblocking(..)` anywhere else overrides that choice for the rest of the socket's life: `set_nonblocking(false)`
+    after a send leaves an asyncio socket blocking without a read timeout, and the next recv() of the skip loop stalls the
+    event loop past every deadline."""
+    facts = ctx.facts
+    n = 0
+    for body in facts.body_list:
+        for b in body.calls():
+            if not (callee_path(b.term) or "").endswith("Socket::set_nonblocking"):
+                continue
+            n += 1
+            inside = body.path.endswith("SnmpSocket::get_socket") or "::get_socket::{closure" in body.path
+            if inside:
+                rep.ok(rule, "%s|mode chosen here" % body.path, "", body.loc(b.term["line"]), obligation=True)
+                continue
+            t = flow.Prov(body).operand(b.term["args"][1])
+            if t[0] == "const":
+                rep.violation(rule, "%s|set_nonblocking outside get_socket" % body.path, "set_nonblocking(%s) outside get_socket: the mode the constructor chose "
+                              "for the session (timeout or non-blocking) is overridden for every later call" % flow.fmt(t), body.loc(b.term["line"]), obligation=True)
+            else:
+                rep.inconclusive(rule, "%s|set_nonblocking outside get_socket" % body.path, "mode set to a computed value (%s)" % flow.fmt(t)[:60], body.loc(b.term["line"]))
+    if n < 1:
+        rep.missing(rule, "set_nonblocking call sites")
+
+
 def arm(ctx, rep, rule):
     facts = ctx.facts
     body = facts.need("socket::snmpsocket::SnmpSocket::get_socket")
